@@ -46,7 +46,15 @@ class Gen:
         if self.anchors and x < 6:
             return {'k': 'A', 'name': r.choice(self.anchors)}
         if self.allow_omit and x >= 94:
-            return {'k': 'N'}
+            n = {'k': 'N', 'anchor': None, 'tag': None}
+            if r.chance(2, 5):
+                # a node with properties but no content: still a (null) node of its own
+                self.props(n)
+                if not n['anchor'] and not n['tag']:
+                    self.nanchor += 1
+                    n['anchor'] = f'a{self.nanchor}'
+                self.finish(n)
+            return n
         if depth <= 0 or x < 40:
             n = {'k': 'S', 'text': r.choice(WORDS)}
         elif x < 70:
@@ -139,7 +147,7 @@ class Gen:
         if n['k'] == 'A':
             return '*' + n['name']
         if n['k'] == 'N':
-            return ''
+            return self.propstr(n)
         if n['k'] == 'Q' and n.get('flow'):
             return self.flow_seq_text(n)
         p = self.propstr(n)
@@ -157,14 +165,17 @@ class Gen:
         kt = self.flow_text(k)
         vt = self.flow_text(v)
         explicit = k['k'] not in ('S', 'N') or len(kt) > 60 or '\n' in kt or k.get('anchor') or k.get('tag') or self.r.chance(1, 8)
+        if k['k'] == 'N' and kt:
+            # a key that is only properties: always explicit
+            return '? ' + kt + (' : ' + vt if vt or self.r.chance(1, 2) else ' ')
         if k['k'] == 'N':
             # empty key: `: v`, `? : v`, or (with an empty value too) a lone `?`
-            if v['k'] == 'N':
+            if v['k'] == 'N' and not vt:
                 return '? '             # the indicator needs its separation space (`?,` is not an indicator)
             return ('? ' if self.r.chance(1, 2) else '') + ': ' + vt
         if explicit:
             kt = '? ' + kt
-        if v['k'] == 'N':
+        if v['k'] == 'N' and not vt:
             return kt + (' :' if self.r.chance(1, 2) else '') if explicit else kt + ' :'
         return kt + ' : ' + vt
 
@@ -177,7 +188,8 @@ class Gen:
                 k, v = x['pairs'][0]
                 items.append(self.flow_pair(k, v))
             elif x['k'] == 'N':
-                items.append('~')       # an entry cannot be left out of a flow sequence; `~` is the null scalar
+                # an entry cannot be left out of a flow sequence; `~` is the null scalar
+                items.append(self.propstr(x) or '~')
             else:
                 items.append(self.flow_text(x))
         tc = ',' if items and self.r.chance(1, 5) else ''
@@ -222,7 +234,8 @@ class Gen:
         for x in n['items']:
             lines += self.comment_lines(ind)
             if x['k'] == 'N':
-                lines.append(' ' * ind + '-' + (' # c' if r.chance(1, 10) else ''))
+                px = self.propstr(x)
+                lines.append(' ' * ind + '-' + (' ' + px if px else '') + (' # c' if r.chance(1, 10) else ''))
             elif self.is_flow(x):
                 lines.append(' ' * ind + '- ' + self.flow_text(x) + (' # c' if r.chance(1, 10) else ''))
             elif r.chance(1, 2) and not self.propstr(x) and (x.get('items') or x.get('pairs')):
@@ -242,10 +255,14 @@ class Gen:
             lines += self.comment_lines(ind)
             kt = self.flow_text(k) if self.is_flow(k) else None
             simple = kt is not None and len(kt) < 200 and '\n' not in kt and not (k['k'] not in ('S', 'A') and r.chance(1, 2)) and k['k'] != 'N'
+            pk = self.propstr(k) if k['k'] == 'N' else ''
+            pv = self.propstr(v) if v['k'] == 'N' else ''
             if k['k'] == 'N' or (v['k'] == 'N' and not simple):
                 # explicit entries with a left-out key and/or value
                 if k['k'] == 'N':
-                    if r.chance(1, 2) or v['k'] == 'N':
+                    if pk:
+                        lines.append(' ' * ind + '? ' + pk)
+                    elif r.chance(1, 2) or (v['k'] == 'N' and not pv):
                         lines.append(' ' * ind + '?')
                 elif self.is_flow(k):
                     lines.append(' ' * ind + '? ' + self.flow_text(k))
@@ -253,7 +270,9 @@ class Gen:
                     lines.append(' ' * ind + '?')
                     lines += self.block(k, ind + r.choice([1, 2, 3]))
                 if v['k'] == 'N':
-                    if r.chance(1, 2):
+                    if pv:
+                        lines.append(' ' * ind + ': ' + pv)
+                    elif r.chance(1, 2):
                         lines.append(' ' * ind + ':')
                 elif self.is_flow(v):
                     lines.append(' ' * ind + ': ' + self.flow_text(v))
@@ -263,7 +282,7 @@ class Gen:
                 continue
             if simple and v['k'] == 'N':
                 sep = ' :' if k['k'] == 'A' else ':'
-                lines.append(' ' * ind + kt + sep + (' # c' if r.chance(1, 10) else ''))
+                lines.append(' ' * ind + kt + sep + (' ' + pv if pv else '') + (' # c' if r.chance(1, 10) else ''))
                 continue
             if simple:
                 sep = ' :' if kt.startswith('*') or k['k'] == 'A' else (self.sp() + ':' if k['k'] == 'S' and k.get('style') != 'P' else ':')
@@ -307,7 +326,13 @@ def flatten(n, out, ids):
         out.append(('AL', ids[n['name']]))
         return
     if n['k'] == 'N':
-        out.append(('SC', 0, None, 'P', '~'))
+        if n.get('anchor') or n.get('tag'):
+            # a node that is only properties: the empty plain scalar carrying them
+            if n.get('anchor') and n['anchor'] not in ids:
+                ids[n['anchor']] = len(ids) + 1
+            out.append(('SC', ids[n['anchor']] if n.get('anchor') else 0, (n['tag'][0] + n['tag'][1]) if n.get('tag') else None, 'P', ''))
+        else:
+            out.append(('SC', 0, None, 'P', '~'))
         return
 
     def aid():
@@ -341,7 +366,7 @@ def render_stream(r):
     for i in range(ndocs):
         g.anchors = []
         d = g.decide(g.gen(r.randint(0, 4)), False)
-        explicit = i > 0 or r.chance(3, 10) or d['k'] == 'N'      # a left-out root node needs its `---`
+        explicit = i > 0 or r.chance(3, 10) or d['k'] == 'N'      # a left-out (or properties-only) root node needs its `---`
         if r.chance(1, 12) and (i == 0 or text.endswith('...\n')):
             text += '%YAML 1.2\n'
             explicit = True
